@@ -79,3 +79,16 @@ Definition py_extend_at {A} (l : list (list A)) (i : Z) (x : list A) : list (lis
   let n := zlen l in
   let j := if i <? 0 then i + n else i in
   if (j <? 0) || (n <=? j) then l else app_at l (Z.to_nat j) x.
+
+(* ---- while loops and loops containing one: explicit bound on the iterations, None = out of fuel ---- *)
+Fixpoint while_loop {S} (fuel : nat) (cond : S -> bool) (body : S -> S) (s : S) : option S :=
+  match fuel with
+  | O => None
+  | S fu => if cond s then while_loop fu cond body (body s) else Some s
+  end.
+
+Fixpoint fold_opt {A S} (f : S -> A -> option S) (l : list A) (s : S) : option S :=
+  match l with
+  | [] => Some s
+  | x :: r => obind (f s x) (fold_opt f r)
+  end.
